@@ -638,6 +638,73 @@ def r5_statistics(ctx):
                         row0 = local[n_.id][0]
                         break
                     todo.append(local[n_.id][0].value)
+    if row0 is None and len(writes) == 1:
+        # the column table written out: row = [str(<column 1 of the
+        # curve>), str(<column 2>), ...] and a header of as many names
+        from ..symres import Resolver as _R5
+        R5 = _R5(fp_, keep={norm(lp.target)})
+        rowlit = None
+        for s_ in lp.body:
+            if isinstance(s_, ast.Assign) and isinstance(
+                    s_.value, ast.List) and s_.value.elts and all(
+                    isinstance(e, ast.Call) and call_name(e) == "str"
+                    and len(e.args) == 1 for e in s_.value.elts) and \
+                    norm(s_.targets[0]) in norm(writes[0]):
+                rowlit = s_
+        hdr = None
+        for st in walk_no_nested(fp_, False):
+            if isinstance(st, ast.Assign) and isinstance(
+                    st.value, ast.Call) and isinstance(
+                    st.value.func, ast.Attribute) and \
+                    st.value.func.attr == "join" and st.value.args and \
+                    isinstance(st.value.args[0], (ast.List, ast.Tuple)) and \
+                    not any(st is x for x in ast.walk(lp)):
+                hdr = [const_str(R5.resolve(e))
+                       for e in st.value.args[0].elts]
+        if rowlit is not None and hdr is not None:
+            cur = norm(lp.target)
+            ctx.check(hdr == ["path", "enum", "E", "rating"], rowlit,
+                      f"statistics columns {hdr}",
+                      f"statistics columns are {hdr}")
+            ctx.check(len(hdr) == len(rowlit.value.elts), rowlit,
+                      "one value per header column",
+                      "the statistics row and the header have a different "
+                      "number of columns")
+            want_ = {"path": f"{cur}.path", "enum": f"{cur}.enum",
+                     "E": f"{cur}.fit_properties['params_fitted']['E'].value"}
+            for nm_, e in zip(hdr, rowlit.value.elts):
+                v_ = R5.resolve(e.args[0])
+                if isinstance(v_, ast.Call) and isinstance(
+                        v_.func, ast.Lambda) and len(v_.args) == 1 and len(
+                        v_.func.args.args) == 1:
+                    v_ = _rename(v_.func.body, v_.func.args.args[0].arg,
+                                 norm(v_.args[0]))
+                t_ = norm(v_)
+                if nm_ in want_:
+                    ctx.check(t_ == want_[nm_], e, f"column {nm_} = {t_}",
+                              f"statistics column '{nm_}' is computed as "
+                              f"{t_}")
+                elif nm_ == "rating":
+                    ok_ = isinstance(v_, ast.Call) and call_name(
+                        v_) == "round"
+                    nd_ = kwarg(v_, "ndigits") if ok_ else None
+                    if ok_ and nd_ is None and len(v_.args) > 1:
+                        nd_ = v_.args[1]
+                    ctx.check(ok_ and nd_ is not None and literal(nd_) == 1,
+                              e, "rating rounded to one decimal",
+                              "the rating is not rounded to one decimal")
+                    inner_ = v_.args[0] if ok_ and v_.args else None
+                    kws_ = {k.arg: norm(k.value) for k in inner_.keywords} \
+                        if isinstance(inner_, ast.Call) else {}
+                    ctx.check(kws_ == {
+                        "training_set": "pf['rating training set']",
+                        "regressor": "pf['rating regressor']"} and
+                        isinstance(inner_, ast.Call) and norm(
+                            inner_.func) == f"{cur}.rate_quality", e,
+                        "rating uses the profile's regressor and training "
+                        "set", f"rating computed with {kws_}")
+            _r5_file_and_fit(ctx, fp_, lp, writes)
+            return
     if row0 is None:
         raise Undecided("fit_perform: the statistics row is not a list "
                         "comprehension over the column table")
@@ -738,6 +805,10 @@ def r5_statistics(ctx):
         ctx.check(ok, lp, "row = every column function applied to the curve",
                   "the statistics row is not built from all columns of the "
                   "current curve")
+    _r5_file_and_fit(ctx, fp_, lp, writes)
+
+
+def _r5_file_and_fit(ctx, fp_, lp, writes):
     # the statistics file starts empty: it is opened for writing
     # (truncated) before rows are appended, and the header is written once
     # outside the per-curve loops
